@@ -923,6 +923,8 @@ std::string fit_gboost(toks_t& toks, std::string* const loop_aug = nullptr)
     const auto protos     = split_commas(toks.s());
     const auto noise      = toks.f();
     const auto batch      = toks.i64();
+    // optional: the same model object is fitted on another sample set first (the observed fit is a RE-fit)
+    const auto refit      = !toks.done() && toks.s() == "refit";
     if (!toks.done())
     {
         throw bad_op("trailing tokens");
@@ -974,6 +976,16 @@ std::string fit_gboost(toks_t& toks, std::string* const loop_aug = nullptr)
     auto solver = solver_t::all().get("lbfgs");
     solver->parameter("solver::max_evals") = 300; // the quality of the fit is not the subject
     const auto fit_params = ml::params_t{}.splitter(*splitter).tuner(*tuner).solver(*solver).logger(make_null_logger());
+    if (refit)
+    {
+        // every second sample of the fitted set, so that the first fit leaves other weak learners / another bias behind
+        indices_t first(samples.size() / 2);
+        for (tensor_size_t i = 0; i < first.size(); ++i)
+        {
+            first(i) = samples(2 * i);
+        }
+        remove_logs(model.fit(dataset, first, *loss, fit_params));
+    }
 #ifdef NANO_VERIF_GBOOST_TRACE
     if (loop_aug != nullptr)
     {
@@ -1205,6 +1217,7 @@ std::string fit_linear(toks_t& toks)
     const auto solver_id = toks.s();
     const auto noise    = toks.f();
     const auto batch    = toks.i64();
+    const auto refit    = !toks.done() && toks.s() == "refit";
     if (!toks.done())
     {
         throw bad_op("trailing tokens");
@@ -1232,6 +1245,15 @@ std::string fit_linear(toks_t& toks)
     auto tuner = tuner_t::all().get("surrogate");
     tuner->parameter("tuner::max_evals") = 10;
     const auto fit_params = ml::params_t{}.splitter(*splitter).tuner(*tuner).solver(*solver).logger(make_null_logger());
+    if (refit)
+    {
+        indices_t first(samples.size() / 2);
+        for (tensor_size_t i = 0; i < first.size(); ++i)
+        {
+            first(i) = samples(2 * i);
+        }
+        remove_logs(model->fit(dataset, first, *loss, fit_params));
+    }
     const auto result     = model->fit(dataset, samples, *loss, fit_params);
     remove_logs(result);
 
